@@ -144,12 +144,13 @@ def run(ctx):
     for sc in syms:
         # field that receives it
         fld = None
+        held = {sc.res}
         for i in sc.bb.insts[sc.idx:]:
             if i.op == 'store':
                 root, steps = access_path(P, f, i.ops[1])
                 fl = fields_in_path(steps)
                 if fl and fl[-1][0] == 'isa_l_descriptor':
-                    fld = fl[-1]; break
+                    fld = fl[-1]; held.add(strip_ptr_casts(f, i.ops[0])); break
         inst = f'isa_l_common_init: dlsym -> {fld[1] if fld else "?"}'
         if fld is None:
             r.undecided(inst, loc=sc.loc, msg='dlsym result is not stored into the descriptor in the same block')
@@ -162,9 +163,12 @@ def run(ctx):
                 if c is not None and c.op == 'icmp' and 'null' in c.ops:
                     o = c.ops[0] if c.ops[1] == 'null' else c.ops[1]
                     od = f.defs.get(o)
-                    if od is not None and od.op == 'load':
+                    same = strip_ptr_casts(f, o) in held
+                    if od is not None and od.op == 'load' and not same:
                         _, st2 = access_path(P, f, od.ops[0])
-                        if fields_in_path(st2)[-1:] == [fld]:
+                        same = fields_in_path(st2)[-1:] == [fld]
+                    if same:
+                        if True:
                             nulldst = f.blocks[t.targets[0] if c.pred == 'eq' else t.targets[1]]
                             if not any(rb in reachable_from(nulldst) for rb in retblocks):
                                 tested = True
